@@ -119,10 +119,22 @@ def make_decls(rnd):
             names_used.add(name)
             sub = find_named(t, name)
             extra = []
-            if sub["k"] in ("struct", "union") and rnd.random() < 0.35:
-                # typedef struct X {...} X, alias1, alias2;
+            if sub["k"] in ("struct", "union") and rnd.random() < 0.5:
                 extra = [f"{name}_t", f"P{name}"][: rnd.randrange(1, 3)]
-                text = "typedef " + text[:-1] + " " + ", ".join([name] + extra) + ";"
+                form = rnd.random()
+                kw = "union" if sub["k"] == "union" else "struct"
+                head = f"{kw} {name} {{"
+                if form < 0.5 or not text.startswith(head):
+                    # typedef struct X {...} X, alias1, alias2;
+                    text = "typedef " + text[:-1] + " " + ", ".join([name] + extra) + ";"
+                elif form < 0.75:
+                    # struct X {...} alias1, alias2;      (names after the body without typedef)
+                    text = text[:-1] + " " + ", ".join(extra) + ";"
+                elif re.search(rf"\b{name}\b", text[len(head):]) is None:
+                    # typedef struct {...} X, alias1;     (the anonymous structure takes its first name)
+                    text = f"typedef {kw} {{" + text[len(head):-1] + " " + ", ".join([name] + extra) + ";"
+                else:
+                    extra = []
             decls.append({"kind": "type", "names": [name] + extra, "type": canon(sub), "text": text,
                           "deps": deps_of(sub) - {name}, "key": name})
     # typedef aliases: of built-in names, of user types, chains, arrays and pointers of them
@@ -253,8 +265,9 @@ def insertion_points(toks):
     return pts
 
 
-def join(toks, fill=None):
-    """Baseline: tokens separated by one space; fill = {index: filler inserted after token index (in addition)}."""
+def join(toks, fill=None, tight=False):
+    """Baseline: tokens separated by one space; fill = {index: filler inserted after token index (in addition)}.
+    tight: no whitespace at all except between two word tokens (the text every other rendering is an insertion into)."""
     out = []
     for i, t in enumerate(toks):
         out.append(t)
@@ -263,6 +276,8 @@ def join(toks, fill=None):
         if i < len(toks) - 1:
             nxt = toks[i + 1]
             sep = "" if nxt.startswith("[") else " "
+            if tight and not (re.match(r"\w", nxt[0]) and re.match(r"\w", t[-1])) and not nxt.startswith("#define"):
+                sep = ""
             out.append(sep)
             if fill and i in fill:
                 out.append(fill[i] + " ")
@@ -325,6 +340,9 @@ class ParserCheck:
             # baseline, one load
             toks_per_decl = [tokenize(d["text"]) for d in decls]
             record(base_order, ["\n".join(join(toks_per_decl[i]) for i in base_order)], "baseline")
+            # the text as a person would write it, and with no optional whitespace at all
+            record(base_order, ["\n".join(decls[i]["text"] for i in base_order)], "source")
+            record(base_order, ["\n".join(join(toks_per_decl[i], tight=True) for i in base_order)], "tight")
             # every single insertion point of every declaration x one filler (thorough: three)
             for di, toks in enumerate(toks_per_decl):
                 for (p, where) in insertion_points(toks):
